@@ -122,6 +122,23 @@ let exec (toks : string list) =
       match op with
       | "CASE" -> print_endline ("CASE " ^ (match rest with t :: _ -> t | [] -> "?"))
       | "ECHO" -> print_endline (String.concat " " toks)
+      | "GUARDS" ->
+        (* the generated guard list (coq/Gen/Guards.v): every guard evaluated on a grid of sizes and boundary indices by the extracted
+           guard_accepts, against the range of its role (role_accepts); `GX` lines are disagreements (none while Store/GuardsOk.v checks) *)
+        let str cl = String.concat "" (List.map (String.make 1) cl) in
+        let n = ref 0 and bad = ref 0 in
+        List.iter (fun g ->
+          incr n;
+          let role = (match g.g_role with RRow -> "row" | RCol -> "col" | RICol -> "icol" | RUnknown -> "unknown") in
+          Printf.printf "G %s %s %s %s\n" (str g.g_fn) (str g.g_arg) role (str g.g_src);
+          List.iter (fun (nr, ns) ->
+            let cand = [-1; 0; 1; ns - 1; ns; ns + 1; nr - 1; nr; nr + 1; ns + nr - 1; ns + nr; ns + nr + 1; 2147483647; -2147483648] in
+            List.iter (fun i ->
+              let a = guard_accepts g (z_of_int i) (z_of_int nr) (z_of_int ns) and b = role_accepts g.g_role (z_of_int i) (z_of_int nr) (z_of_int ns) in
+              if a <> b then begin incr bad; Printf.printf "GX %s %s %s i=%d nrows=%d nstruct=%d guard_accepts=%b valid=%b\n" (str g.g_fn) (str g.g_arg) role i nr ns a b end)
+              (List.sort_uniq compare cand))
+            [(0, 0); (1, 0); (0, 1); (1, 1); (2, 3); (3, 2); (4, 4)]) guards;
+        Printf.printf "R GUARDS OK rv=0 guards=%d disagreements=%d\n" !n !bad
       | "L2VARIANT" -> l2_fixed := (tk () <> "orig"); Printf.printf "R L2VARIANT OK rv=0 %s\n" (if !l2_fixed then "fixed" else "orig")
       | "RESET" -> st := []; Hashtbl.reset ast; Hashtbl.reset l2t; print_endline "R RESET OK rv=0"
       | "CREATE" ->
